@@ -21,3 +21,36 @@ pub use text::Text;
 pub mod __hidden {
     pub use aranya_policy_text_macro::{validate_identifier, validate_text};
 }
+
+/// Verification hooks (only with `--cfg aranya_core_verif`).
+#[cfg(aranya_core_verif)]
+pub mod verif_hook {
+    use core::sync::atomic::{AtomicUsize, Ordering};
+
+    /// `ArcStr::clone`: `fetch_add`.
+    pub const SITE_ARCSTR_CLONE_ADD: u32 = 30;
+    /// `ArcStr::drop`: `fetch_sub`.
+    pub const SITE_ARCSTR_DROP_SUB: u32 = 31;
+    /// `ArcStr::drop`: acquire fence.
+    pub const SITE_ARCSTR_DROP_FENCE: u32 = 32;
+    /// `ArcStr::drop`: deallocation.
+    pub const SITE_ARCSTR_DROP_FREE: u32 = 33;
+
+    static HOOK: AtomicUsize = AtomicUsize::new(0);
+
+    /// Installs (or removes) the function called before each atomic operation.
+    pub fn install(f: Option<fn(u32)>) {
+        HOOK.store(f.map_or(0, |f| f as usize), Ordering::SeqCst);
+    }
+
+    /// Called before every atomic operation of `repr::arc`.
+    #[inline]
+    pub fn yield_point(site: u32) {
+        let p = HOOK.load(Ordering::SeqCst);
+        if p != 0 {
+            // SAFETY: a non-zero value was stored from a `fn(u32)` by `install`.
+            let f = unsafe { core::mem::transmute::<usize, fn(u32)>(p) };
+            f(site);
+        }
+    }
+}
